@@ -318,6 +318,10 @@ def replay_and_validate(ctx, scns, jobs, tag):
         ctx.cov["resync_runs"] = ctx.cov.get("resync_runs", 0) + len(rs)
         ctx.cov["documents_rewritten"] = ctx.cov.get("documents_rewritten", 0) + sum(r["changed"] for r in rs)
     ctx.cov["distinct_nontrivial"] += nontriv
+    raced = max([r.get("raced", 0) for r in rows if r["a"] == "Resync"] or [0])
+    ctx.cov["resync_writes_raced_by_cas_moving_touch"] = ctx.cov.get("resync_writes_raced_by_cas_moving_touch", 0) + raced
+    if raced == 0 and not os.environ.get("VERIF_C18_NORACE"):
+        ctx.notes.append("no resync write was raced in this batch (racing-writer family vacuous)")
     mid = jobs[len(jobs) // 2]
     ctx.sample({"scenario": next(s for s in scns if s["id"] == mid["id"]), "real_trace": slim(per[mid["id"]])[-9:]}, cap=2)
 
